@@ -389,6 +389,8 @@ pub struct Shared {
     pub kill_epoch: u64,
     /// what the serving tasks do when woken by `kill`
     pub idle_action: Option<FaultKind>,
+    /// exchanges started in the current call, per command kind (acknowledgements sent)
+    pub attempts_in_call: BTreeMap<Cmd, usize>,
 }
 
 pub type SharedRef = Arc<Mutex<Shared>>;
@@ -417,6 +419,7 @@ impl Shared {
             kill: Arc::new(tokio::sync::Notify::new()),
             kill_epoch: 0,
             idle_action: None,
+            attempts_in_call: BTreeMap::new(),
         }
     }
     fn now_ms(&self) -> u64 {
@@ -435,6 +438,7 @@ impl Shared {
     /// Returns true if the terminal closes its idle connections now (the caller then lets the serving tasks run).
     pub fn begin_call(&mut self) -> bool {
         self.call += 1;
+        self.attempts_in_call.clear();
         self.tx_in_call = 0;
         self.connects_in_call = 0;
         if let Some((c, d)) = self.plan.dangling_from_call {
@@ -779,7 +783,13 @@ fn next_tx_action(sh: &mut Shared, cmd: Cmd, reply_idx: usize, conn: usize) -> T
     let idx = sh.tx_in_call;
     sh.tx_in_call += 1;
     let call = sh.call;
-    sh.tx_points.push(TxPoint { call, tx_index: idx, cmd, reply_idx, conn });
+    if reply_idx == 0 {
+        *sh.attempts_in_call.entry(cmd).or_insert(0) += 1;
+    }
+    // (the numbering of a run that goes on for a virtual day is of no use to anybody)
+    if sh.tx_points.len() < 200_000 {
+        sh.tx_points.push(TxPoint { call, tx_index: idx, cmd, reply_idx, conn });
+    }
     for (fi, f) in sh.plan.faults.iter().enumerate() {
         if f.call != call {
             continue;
@@ -789,7 +799,7 @@ fn next_tx_action(sh: &mut Shared, cmd: Cmd, reply_idx: usize, conn: usize) -> T
             At::Point(c, r) => *c == cmd && *r == reply_idx,
             At::PointOnce(c, r) => *c == cmd && *r == reply_idx && !sh.fired.contains(&fi),
             At::CreepingIn { cmd: c, offset, step } => {
-                let attempts = sh.tx_points.iter().filter(|p| p.call == call && p.cmd == *c && p.reply_idx == 0).count();
+                let attempts = sh.attempts_in_call.get(c).copied().unwrap_or(0);
                 *c == cmd && attempts >= 1 && reply_idx == (attempts - 1) * step + offset
             }
             At::Creeping { offset, step } => {
